@@ -21,5 +21,6 @@ uint64_t scheduleHash();
 int threadId(); int threadCount(); bool threadBlocked(int id);
 std::string threadStates();
 void setDeadlockHandler(std::function<void(const char*)> f);
+void setWakeHandler(std::function<void()> f);   // called by a thread that returns from a sleep
 void waitSteps(int64_t n); void waitPred(std::function<bool()> p); void sleepNs(int64_t ns); void yield();
 }
